@@ -809,7 +809,8 @@ impl<'a> AnalyzeContext<'a, '_> {
             1
         };
 
-        if let Some(idx_typ) = indexes.get(idx - 1) {
+        // The dimension is one-based: zero is out of range like any too large number
+        if let Some(idx_typ) = idx.checked_sub(1).and_then(|idx| indexes.get(idx)) {
             if let Some(idx_typ) = idx_typ {
                 Ok(*idx_typ)
             } else {
